@@ -233,6 +233,9 @@ type c19Conf struct {
 	// Size: configured cache size of the original AND of the reloaded instance (0: c19Size).
 	// Sizes below 1024 are legal: the store's documented minimum of 1024 entries applies.
 	Size int `json:"size,omitempty"`
+	// Fat: every answer carries 300 more address records (6-9 KiB per entry in the dump): a block
+	// of 128 such entries is about 1 MiB
+	Fat bool `json:"fat,omitempty"`
 }
 
 // c19CurSize is the configured size used by every cache the scenarios build
@@ -289,6 +292,12 @@ func c19Populate(cf c19Conf, mainID int, args *Args) (*Cache, *c19Up, int) {
 			ttl := m.Answer[0].Header().Ttl
 			for k := 0; k < 3000; k++ {
 				m.Answer = append(m.Answer, &dns.A{Hdr: dns.RR_Header{Name: q.Question[0].Name, Rrtype: dns.TypeA, Class: dns.ClassINET, Ttl: ttl}, A: net.IPv4(172, 16, byte(k>>8), byte(k)).To4()})
+			}
+		}
+		if cf.Fat && len(m.Answer) > 0 {
+			ttl := m.Answer[0].Header().Ttl
+			for k := 0; k < 300; k++ {
+				m.Answer = append(m.Answer, &dns.A{Hdr: dns.RR_Header{Name: q.Question[0].Name, Rrtype: dns.TypeA, Class: dns.ClassINET, Ttl: ttl}, A: net.IPv4(172, 17, byte(k>>8), byte(k)).To4()})
 			}
 		}
 		return m
@@ -1780,6 +1789,9 @@ func TestVerifC19(t *testing.T) {
 				if !sub && (n == 129 || n == 300) {
 					// configured size below the number of entries held
 					confs = append(confs, c19Conf{N: n, Lazy: lazy, Rot: 0, Size: 128}, c19Conf{N: n, Lazy: lazy, Rot: 0, Size: 256})
+					if lazy == 0 {
+						confs = append(confs, c19Conf{N: n, Lazy: lazy, Rot: 0, Fat: true}) // big answers: blocks of many hundred KiB
+					}
 				}
 			}
 		}
